@@ -41,7 +41,7 @@ def q_c(name):
 
 # (label, path, strip, applicability) - see build()
 KF05 = 'deletion-expressed-only-by-an-epoch-time-stamp'
-DIALECTS = ['plain', 'both-names', 'timestamps', 'diff-N', 'git', 'git-mode', 'orig', 'quoted', 'quoted-space', 'plus-first', 'prose', 'p0', 'p2', 'deep', 'git-rename']
+DIALECTS = ['plain', 'both-names', 'timestamps', 'diff-N', 'git', 'git-mode', 'orig', 'quoted', 'quoted-space', 'git-space', 'plus-first', 'prose', 'p0', 'p2', 'deep', 'git-rename']
 
 
 def build(dialect, case, rev):
@@ -49,7 +49,7 @@ def build(dialect, case, rev):
     A, B, a_abs, b_abs = case['A'], case['B'], case['a_abs'], case['b_abs']
     path, path2, strip = 'f', None, 1
     mode_a = mode_b = 0o644
-    if dialect == 'quoted-space':
+    if dialect in ('quoted-space', 'git-space'):
         path = 'sp ace/f le'
     elif dialect == 'deep':
         path = 'd/e/f'
@@ -82,7 +82,12 @@ def build(dialect, case, rev):
     old_line = b'--- ' + (b'/dev/null' if (a_abs and not real_names) else spell_o) + (b'\t1970-01-01 00:00:00.000000000 +0000' if (ts and a_abs) else ts) + b'\n'
     new_line = b'+++ ' + (b'/dev/null' if (b_abs and not real_names) else spell_n) + (b'\t1970-01-01 00:00:00.000000000 +0000' if (ts and b_abs) else ts) + b'\n'
     head = b''
-    if dialect in ('git', 'git-mode', 'git-rename'):
+    if dialect == 'git-space':
+        # the way git writes a name with blanks: unquoted, a tab behind it on the ---/+++ lines
+        ts = b'\t'
+        old_line = b'--- ' + (b'/dev/null' if a_abs else oname + ts) + b'\n'
+        new_line = b'+++ ' + (b'/dev/null' if b_abs else nname + ts) + b'\n'
+    if dialect in ('git', 'git-mode', 'git-rename', 'git-space'):
         head += b'diff --git ' + oname + b' ' + nname + b'\n'
         if dialect == 'git-rename':
             head += b'similarity index 90%\nrename from ' + path.encode() + b'\nrename to ' + path2.encode() + b'\n'
